@@ -1208,6 +1208,66 @@ def _root_name(e):
     return e.id if isinstance(e, ast.Name) else None
 
 
+def normalise_byte_accumulators(tree: ast.Module) -> int:
+    """A local `buf = bytearray()` / `buf = b""` that is only ever extended (`buf.extend(e)`, `buf += e`) and finally returned
+    (`return bytes(buf)` / `return buf`) is the list of pieces joined at the end: `buf = []`, `buf.append(e)`,
+    `return b"".join(buf)` - the shape the read loops of this package use."""
+    n = 0
+    for fn in ast.walk(tree):
+        if not isinstance(fn, (ast.FunctionDef, ast.AsyncFunctionDef)):
+            continue
+        cands = {}
+        for st in fn.body:
+            if isinstance(st, ast.Assign) and len(st.targets) == 1 and isinstance(st.targets[0], ast.Name):
+                v = st.value
+                if (isinstance(v, ast.Call) and isinstance(v.func, ast.Name) and v.func.id == "bytearray" and not v.args and not v.keywords) or \
+                        (isinstance(v, ast.Constant) and v.value == b""):
+                    cands[st.targets[0].id] = st
+        for name, init in cands.items():
+            uses = []
+            ok = True
+            parents = {id(c): p_ for p_ in ast.walk(fn) for c in ast.iter_child_nodes(p_)}
+            for x in _walk_own_deep(fn):
+                if isinstance(x, ast.Name) and x.id == name and x is not init.targets[0]:
+                    par = parents.get(id(x))
+                    gp = parents.get(id(par)) if par is not None else None
+                    if isinstance(par, ast.Attribute) and par.attr == "extend" and isinstance(gp, ast.Call) and gp.func is par and len(gp.args) == 1 \
+                            and isinstance(parents.get(id(gp)), ast.Expr):
+                        uses.append(("extend", gp))
+                    elif isinstance(par, ast.AugAssign) and par.target is x and isinstance(par.op, ast.Add):
+                        uses.append(("aug", par))
+                    elif isinstance(par, ast.Return) and par.value is x:
+                        uses.append(("ret", par))
+                    elif isinstance(par, ast.Call) and isinstance(par.func, ast.Name) and par.func.id == "bytes" and par.args == [x] and not par.keywords \
+                            and isinstance(gp, ast.Return):
+                        uses.append(("retbytes", gp))
+                    else:
+                        ok = False
+                        break
+            if not ok or not any(k in ("ret", "retbytes") for k, _ in uses) or not any(k in ("extend", "aug") for k, _ in uses):
+                continue
+            init.value = ast.copy_location(ast.List(elts=[], ctx=ast.Load()), init.value)
+            for kind, node in uses:
+                if kind == "extend":
+                    node.func.attr = "append"
+                elif kind in ("ret", "retbytes"):
+                    node.value = ast.copy_location(ast.Call(func=ast.Attribute(value=ast.Constant(value=b""), attr="join", ctx=ast.Load()),
+                                                            args=[ast.Name(id=name, ctx=ast.Load())], keywords=[]), node)
+            # `buf += e` statements become `buf.append(e)`
+            for node_ in ast.walk(fn):
+                for fld in ("body", "orelse", "finalbody"):
+                    blk = getattr(node_, fld, None)
+                    if isinstance(blk, list):
+                        for i, st in enumerate(blk):
+                            if any(k == "aug" and u is st for k, u in uses):
+                                call = ast.Call(func=ast.Attribute(value=ast.Name(id=name, ctx=ast.Load()), attr="append", ctx=ast.Load()), args=[st.value], keywords=[])
+                                blk[i] = ast.copy_location(ast.Expr(value=call), st)
+            n += 1
+    if n:
+        ast.fix_missing_locations(tree)
+    return n
+
+
 def final_loop_returns(tree: ast.Module) -> int:
     """A bare `return` directly inside the loop that ends a function body (no `else`, not inside a nested loop) leaves the loop
     and then the function with None: it is a `break`.  (Makes procedures that stop early inlinable.)"""
